@@ -278,6 +278,30 @@ func deref(info *types.Info, e ast.Expr) ast.Expr {
 				e = body
 				continue
 			}
+			// a conversion to a named slice / map / func type keeps the value: liveEntries(iters) is iters
+			if tv, ok := info.Types[call.Fun]; ok && tv.IsType() && len(call.Args) == 1 {
+				switch tv.Type.Underlying().(type) {
+				case *types.Slice, *types.Map, *types.Signature, *types.Pointer, *types.Chan:
+					e = call.Args[0]
+					continue
+				}
+			}
+			return e
+		}
+		// x.f where x stands for a struct literal T{..., f: v, ...}: v
+		if sel, isSel := e.(*ast.SelectorExpr); isSel {
+			if _, isID := ast.Unparen(sel.X).(*ast.Ident); isID {
+				base := deref(info, sel.X)
+				if u, ok := base.(*ast.UnaryExpr); ok && u.Op == token.AND {
+					base = ast.Unparen(u.X)
+				}
+				if cl, ok := base.(*ast.CompositeLit); ok {
+					if v := compositeField(info, cl, sel.Sel.Name); v != nil {
+						e = v
+						continue
+					}
+				}
+			}
 			return e
 		}
 		id, ok := e.(*ast.Ident)
@@ -291,6 +315,30 @@ func deref(info *types.Info, e ast.Expr) ast.Expr {
 		e = next
 	}
 	return ast.Unparen(e)
+}
+
+// compositeField returns the value given to field name in a struct literal (keyed or positional).
+func compositeField(info *types.Info, cl *ast.CompositeLit, name string) ast.Expr {
+	t := info.TypeOf(cl)
+	if t == nil {
+		return nil
+	}
+	st, ok := t.Underlying().(*types.Struct)
+	if !ok {
+		return nil
+	}
+	for i, el := range cl.Elts {
+		if kv, ok := el.(*ast.KeyValueExpr); ok {
+			if id, ok := kv.Key.(*ast.Ident); ok && id.Name == name {
+				return kv.Value
+			}
+			continue
+		}
+		if i < st.NumFields() && st.Field(i).Name() == name {
+			return el
+		}
+	}
+	return nil
 }
 
 func derefStep(info *types.Info, id *ast.Ident) ast.Expr {
@@ -332,6 +380,27 @@ func derefStep(info *types.Info, id *ast.Ident) ast.Expr {
 			return nil
 		}
 		return def
+	}
+	// receiver of a new helper method with one use site (a call or a method value X.m) -> X
+	if isNewHelper(p, fi) && fi.Decl.Recv != nil && len(fi.Decl.Recv.List) == 1 && len(fi.Decl.Recv.List[0].Names) == 1 && info.Defs[fi.Decl.Recv.List[0].Names[0]] == types.Object(obj) {
+		var recv ast.Expr
+		n := 0
+		for _, u := range p.Uses(fi.Obj) {
+			if prog.IsTestSupport(u.Pkg.PkgPath) {
+				continue
+			}
+			n++
+			path := p.PathTo(u.File, u.Ident.Pos(), u.Ident.End())
+			if len(path) >= 2 {
+				if sel, ok := path[len(path)-2].(*ast.SelectorExpr); ok && sel.Sel == u.Ident {
+					recv = sel.X
+				}
+			}
+		}
+		if n != 1 {
+			return nil
+		}
+		return recv
 	}
 	// parameter of a new helper with one call site -> the argument
 	if !isNewHelper(p, fi) || fi.Decl.Type.Params == nil {
